@@ -7,6 +7,7 @@ TRUSTED_BASE = [
     'Coq 8.16.1 kernel + vm_compute (no native_compute); std++ 1.8.0; coqchk in the thorough tier',
     'Print Assumptions of every property theorem: Closed under the global context (no axioms)',
     'hand-written Gallina model of the command layer (coq/theories); tied to /repo by the correspondence run of this check',
+    'translator tools/gen (go/parser + go/ast): the accepted Go fragment and its reading as the IRs of coq/bridge/{SkelLib,ReplayIR,ReadyIR,CompactIR}.v; the IR interpreters; primitives pinned by source text or shape only: maxTime, parseTime/formatTime, sortedKeys/sortedMapKeys, sort.Slice, json.Unmarshal (struct shape), newEvent, applyLegacyTitleMigration (as a call)',
     'correspondence harness (harness/*.py): generators, Go-side decoding of log bytes into typed events via the verif-rpc hook (encoding/json, time.Parse are Go stdlib), tag projection',
     'modelled not verified: kernel flock/O_APPEND/rename, Go stdlib, cobra flag parsing',
 ]
@@ -70,6 +71,12 @@ def prepare(ctx):
             stubs['ReplayGen.v'] = ('From ErgoBridge Require Import ReplayIR.\nFrom Coq Require Import String List.\nImport ListNotations.\nLocal Open Scope string_scope.\n'
                                     'Definition gen_replay_cases : list (list string * list rstmt) := [].\nDefinition gen_tombstone : list tstmt := [].\n'
                                     'Definition gen_replay_frame : list pstmt := [].\nDefinition gen_replay_prims : list (string * string) := [].\n')
+            stubs['ReadyGen.v'] = ('From ErgoBridge Require Import ReadyIR.\nFrom Coq Require Import String.\n'
+                                   'Definition gen_ready_prog : prog := nil.\nDefinition gen_filter_sources : list (string * string) := nil.\n'
+                                   'Definition gen_readyTasks_pipeline : pipeline := Pipeline nil nil.\n')
+            stubs['CompactGen.v'] = ('From ErgoBridge Require Import ReadyIR CompactIR.\nFrom Coq Require Import String.\nLocal Open Scope string_scope.\n'
+                                     'Definition gen_compact : compact_ir := CompactIR "" "" "" CBNil "" "" "" CBNil nil.\n'
+                                     'Definition gen_compact_helpers : list (string * string) := nil.\n')
             for name, text in stubs.items():
                 with open(os.path.join(COQ, 'gen', name), 'w') as f:
                     f.write('(* STUB: tools/gen failed: %s *)\n' % ctx.gen_error.replace('*)', '* )')[:200] + text)
@@ -125,7 +132,8 @@ def compile_props(ctx):
 
 # replay / readiness / compaction are regenerated from graph.go; the properties that stand on them re-check the
 # equivalence theorems between the regenerated definitions and the hand-written model
-EXTRA_BRIDGE = {p: ['B_Replay'] for p in ('C05', 'C06', 'C08', 'C09', 'C14', 'C15', 'C20')}
+EXTRA_BRIDGE = {'C01': ['B_Ready'], 'C05': ['B_Replay', 'B_Compact'], 'C06': ['B_Replay'], 'C08': ['B_Replay', 'B_Ready'],
+                'C09': ['B_Replay'], 'C14': ['B_Replay'], 'C15': ['B_Replay', 'B_Ready'], 'C19': ['B_Ready'], 'C20': ['B_Replay', 'B_Compact']}
 
 
 def compile_bridge(ctx, bname):
